@@ -657,7 +657,8 @@ def am_abort(r: "Repo", *, config: "Config | None" = None) -> None:
         old_head: ObjectID | None = r.refs[HEADREF]
     except KeyError:
         old_head = None
-    r.refs.set_if_equals(HEADREF, old_head, orig_head)
+    if not r.refs.set_if_equals(HEADREF, old_head, orig_head):
+        raise AmError("HEAD changed while aborting am")
 
     state.clean()
 
